@@ -617,7 +617,7 @@ func checkC17(c *Ctx, rt *rapid.T) {
 	w := GenWorld(g, opts)
 	w.Extras.Noise = true
 	if g.Chance(1, 3, "packed") {
-		w.Layout = g.PickStr([]string{"packed", "packed-refs", "bitmap"}, "layout")
+		w.Layout = g.PickStr([]string{"packed", "packed-refs", "bitmap", "promisor"}, "layout")
 	}
 	if g.Chance(2, 3, "ties") {
 		// ties: several equally large maximal blobs side by side, equally wide
